@@ -49,7 +49,7 @@ class TlcResult:
         m = re.search(r"Error: Action property (\S+) is violated", out)
         if m:
             self.invariant = m.group(1)
-        self.temporal = "Temporal properties were violated" in out
+        self.temporal = re.search(r"Temporal propert\w+ .*violated", out) is not None
         self.deadlock = "Error: Deadlock reached" in out
         self.postcondition_failed = "Postcondition" in out and "violated" in out or "postcondition" in out.lower() and "false" in out.lower()
         self.assume_failed = re.search(r"Assumption .* is false", out) is not None
